@@ -458,7 +458,10 @@ iwrc iwhmap_rename(struct iwhmap *hm, const void *key_old, void *key_new) {
     hash = hm->hash_key_fn(key_new);
     entry = _entry_add(hm, key_new, hash);
     if (!entry) {
-      return iwrc_set_errno(IW_ERROR_ERRNO, errno);
+      // The old entry is gone already: hand the value to the owner's callback instead of dropping it.
+      int err = errno;
+      hm->kv_free_fn(0, val);
+      return iwrc_set_errno(IW_ERROR_ERRNO, err);
     }
     hm->kv_free_fn(hm->int_key_as_pointer_value ? 0 : entry->key, entry->val);
 
